@@ -71,7 +71,8 @@ pub fn replay_file(path: &Path) -> i32 {
         // the case once aborted the host process: just execute it; if this returns, it is clean
         return match crate::case::Case::from_json(&doc["case"]) {
             Ok(case) => {
-                let _ = common::run_case(&case, &common::RunOpts::default());
+                let opts = if doc.get("run_opts").is_some() { common::RunOpts::from_json(&doc["run_opts"]) } else { common::RunOpts::default() };
+                let _ = common::run_case(&case, &opts);
                 println!("REPLAY-CLEAN property={} replay={}", id, path.display());
                 0
             }
